@@ -151,14 +151,20 @@ def guarded_site_sessions(ctx, vh, quick):
     def passed(f):
         t = f.split(); t[1] = "b" if t[1] == "w" else "w"; t[3] = "-"; t[4] = "0"; return " ".join(t)
     pr, pq = preds(hits), preds([passed(f) for f in hits])
-    for i, (f, rs, qs) in enumerate(zip(hits, pr, pq)):
+    batch, nb = [], 0
+    for f, rs, qs in zip(hits, pr, pq):
         r.shuffle(rs); r.shuffle(qs)
         jobs = []
-        if f in strict and qs: jobs += [(qs[0], "go depth 5!"), (qs[0], "go depth 7")]      # leaves the passed position in the hash table
+        if f in strict and qs: jobs += [(qs[0], "go depth 5"), (qs[0], "go depth 7")]      # leaves the passed position in the hash table
         for root in rs[:2 if quick else 3]:
             st["roots"] += 1
             jobs += [(root, f"go depth {d}") for d in r.sample([6, 7, 8, 9], 2 if quick else 3)]
-        if jobs: sessions.append((nets[i % 3], {}, jobs))
+        if jobs:
+            jobs[0] = (jobs[0][0], jobs[0][1] + "!")       # each position starts from an empty hash table; several positions share an engine
+            batch += jobs
+        if len(batch) >= 36:
+            sessions.append((nets[nb % 3], {}, batch)); batch = []; nb += 1
+    if batch: sessions.append((nets[nb % 3], {}, batch))
     ctx.cov["guarded_site_roots"] = st
     return sessions
 
